@@ -44,6 +44,12 @@ CHECKS.update({
               note="text compared region-agnostically as sorted visible text leaves; writing mode is removed by the filter by design", ref="3/C16"),
 })
 
+CHECKS.update({
+  "C09": dict(cat="exploration", tech="bounded-exhaustive enumeration of byte-level STL files (all text-field strings up to a length over a byte-class alphabet, all code-table bytes and diacritic pairs, TTI sequences, time-code grids per DFC, reader configurations) against an independent EBU Tech 3264 interpreter",
+              text="every generated STL file is read by the real reader and compared clause by clause (text, per-character styles, exact begin/end, dropping before programme start, alignment, region anchoring, cumulative sets, extension/comment/user-data blocks, character sets) with an interpreter written from EBU Tech 3264",
+              note="reference interpreter mc/refstl.py gated by hand examples, glibc iconv ISO 6937 tables and the repository's own pinned expectations; areas where Tech 3264 is silent are not asserted (listed in the module)", ref="3/C09"),
+})
+
 PENDING = {}
 
 
